@@ -393,7 +393,7 @@ def run_check(cid, tier="quick", seed=0, replay=None, only=None):
     for v in violations:
         kind = v["viol"].get("kind", "violation")
         seen_kinds[kind] = seen_kinds.get(kind, 0) + 1
-        if seen_kinds[kind] > 5:
+        if seen_kinds[kind] > int(os.environ.get("VERIF_WITNESS_CAP", "5")):
             continue
         path = os.path.join(rdir, "%s-%s.json" % (prop, _stable_hash(v)))
         with open(path, "w") as f:
